@@ -39,13 +39,13 @@ func (e *StrListEncoder) Encode(sl []string) []byte {
 		panic(fmt.Errorf("slice length is too long (%d > 4294967296)", len(sl)))
 	}
 	binary.BigEndian.PutUint32(e.buf, uint32(len(sl)))
-	var offset uint16 = 4
+	offset := 4
 	for _, s := range sl {
-		if len(s) > 65536 {
-			panic(fmt.Errorf("cell value %q is too long (%d > 65536)", s[:40]+"...", len(s)))
+		if len(s) > 65535 {
+			panic(fmt.Errorf("cell value %q is too long (%d > 65535)", s[:40]+"...", len(s)))
 		}
-		l := uint16(len(s))
-		binary.BigEndian.PutUint16(e.buf[offset:], l)
+		l := len(s)
+		binary.BigEndian.PutUint16(e.buf[offset:], uint16(l))
 		offset += 2
 		copy(e.buf[offset:], s)
 		offset += l
@@ -90,16 +90,16 @@ func (d *StrListDecoder) strSlice(n uint32) []string {
 func (d *StrListDecoder) Decode(b []byte) []string {
 	count := binary.BigEndian.Uint32(b)
 	sl := d.strSlice(count)
-	var offset uint16 = 4
+	offset := 4
 	var i uint32
 	for i = 0; i < count; i++ {
-		l := binary.BigEndian.Uint16(b[offset:])
+		l := int(binary.BigEndian.Uint16(b[offset:]))
 		offset += 2
 		if l == 0 {
 			sl = append(sl, "")
 			continue
 		}
-		d.ensureBufSize(int(l))
+		d.ensureBufSize(l)
 		copy(d.buf[:l], b[offset:])
 		offset += l
 		sl = append(sl, string(d.buf[:l]))
